@@ -65,12 +65,12 @@ CHECKS = {
    note='Trusted: Coq kernel; R axioms; translator T3 (macro bodies -> StencilGen.v; proved equal to the hand model StencilDefs.v in StencilTie.v and validated by the K-matrix); extraction; LevelCache plumbing (cached = recomputed) and the call sites of the macros are checked on the implementation, not proved.',
    design='5/C03'),
  'C04': dict(
-   technique='Coq proof that both assembly targets are one operator (C03) and that storage order is irrelevant (C16) + row-by-row correspondence of the assembled CSR matrices (guarded friend accessor) + residual-checked direct solves',
+   technique='Coq proof over both direct-solver assembly macros regenerated from the source (translator T3: the entries the take assembly stores = the residual operator row with distinct in-range slots; the entries the give assembly accumulates = the scatter block of the give residual), that both targets are one operator (C03), that the hash-map LU returns A x = b (C16) and that storage order is irrelevant + row-by-row correspondence of the assembled CSR matrices (guarded friend accessor) + residual-checked direct solves',
    text='PARTIAL. Theorems: the give-assembly and take-assembly targets are the same linear operator; the LU input does not depend on slot '
         'order. Checked on every run: every CSR row of both real direct solvers equals the model operator row (exact rationals), columns '
         'are distinct within rows, solveInPlace has zero residual (<= 1e-10 relative) under the independent residual operator for unit, '
         'random and huge-dynamic-range right-hand sides, and both strategies return the same solution.',
-   note='Not proved: A(solve b)=b for the sparse LU (C16 partial) and rounding. Hook H2 (friend access) used to read solver_matrix_.',
+   note='Not proved: that no pivot of A vanishes, the slot bookkeeping of the give assembly, rounding. Hook H2 (friend access) used to read solver_matrix_. Translator T3 is validated by the K-matrix of the assembled CSR.',
    design='5/C04'),
  'C05': dict(
    technique='Coq proof over the bilinear form of the give kernel as regenerated from NODE_APPLY_A_GIVE (translator T3; gen_form = model form): per-node symmetry (ring), per-node non-negativity (weighted Cauchy-Schwarz + 2x2 discriminant), summed over any node list; discriminant identity 4 arr att - art^2 = alpha^2 + K-matrix correspondence',
